@@ -320,6 +320,12 @@ def gen_symphase_cases(rng, tier):
                 lines.append('%s ac %s PHI %s' % (' '.join(p[:3]), fs(netgen.val(rng, 1, 6, (1, 1, 2))), fs(w)))
             else:
                 lines.append(l)
+        if not any(re.match(r'^[CL]\d', l) for l in lines):
+            # purely resistive circuits are analysed in the time domain (no phasors): add a capacitor
+            srcl = [l.split() for l in lines if re.match(r'^[VI]\d', l)]
+            nd = [n_ for n_ in srcl[0][1:3] if n_ != '0'] if srcl else []
+            if nd:
+                lines.append('C9 %s 0 {1/2}' % nd[0])
         out.append({'mode': 'symphase', 'netlist': lines})
     return out
 
